@@ -36,11 +36,18 @@ def pushR (s : DS) (ops : List (FsOp × Res)) : DS :=
       | none => if o.2.isOk then none else some (faultClass s.mdisk o.1 o.2)
     { s with mops := s.mops ++ [o.1], mres := s.mres ++ [showRes o.2], mdisk := s.mdisk.applyRes o.1 o.2, firstFault := ff }) s
 
+/-- a block whose count field is not the number of its entries (a wrapped `EntryCount`) starts in `f` -/
+def hasWrappedBlock (f : List Cell) : Bool :=
+  f.any fun c => match c with
+    | .bh b 0 => b.hdr.length == 16 && maxEnts < b.ents.length && b.cnt != b.ents.length
+    | _ => false
+
 /-- name the defect by what the file looks like at the end, not only by the first fault -/
 def lossClass (s : DS) : String :=
   match s.mdisk.main with
   | none => "C25-failed-create-bricks-swamp"
   | some f =>
+    if hasWrappedBlock f then "C25-restored-buffer-overflows-entry-count" else
     match headerOf f with
     | none => if f.length < 64 then "C25-failed-create-bricks-swamp" else "C25-failed-header-rewrite-overwrites-file"
     | some nl =>
@@ -91,7 +98,8 @@ def cfgOfArgs (kv : List (String × String)) : Cfg :=
 
 def run (args : List String) : IO UInt32 := do
   let kv := parseArgs args
-  let fc : FCfg := ⟨boolArg kv "clearsBufferBeforeWrite", boolArg kv "rollsBackFailedBlock", boolArg kv "restoresOffsetAfterHeader"⟩
+  let fc : FCfg := ⟨boolArg kv "clearsBufferBeforeWrite", boolArg kv "rollsBackFailedBlock", boolArg kv "restoresOffsetAfterHeader",
+    boolArg kv "splitsOversizedBuffer"⟩
   lineLoop step { cfg := cfgOfArgs kv, fc := fc, probe := false }
   return 0
 
